@@ -94,3 +94,39 @@ Example C01_example_fixed :
   length (r_states (run (cfg_of MPath Stop fixed None) plan_mkdir_gap [] fs_mkdir_gap)) = 1%nat /\
   r_status (run (cfg_of MPath Stop fixed (Some 0%nat)) plan_mkdir_gap [] fs_mkdir_gap) = 126%Z.
 Proof. vm_compute. repeat split. Qed.
+
+(* ---- the whole program (added once the component models were composed: Whole/Main.v [tempren_main]) ---- *)
+From Tempren Require Import Pipe.FrontCompile Whole.Library Whole.Render Whole.Gather Whole.Main Whole.Theorems Whole.Examples.
+
+(* For EVERY registry, template text, options without override (stop, ignore, manual without an answer selecting
+   override; any mode, -r, -ih, sort, dry-run, fault index, listing order), input paths and well-formed tree:
+   every state the run goes through, and the final one, has exactly the initial non-directory entries - whatever
+   the gatherers select, the sorter orders and the template renders.  (Immediate from C01_no_loss, which holds for
+   every plan; stated because it is the form of C01 about the program rather than about an abstract plan.) *)
+Theorem C01_whole_no_loss : forall upper lower R o text dirs s,
+  WF s -> no_override o ->
+  let r := tempren_main upper lower R o text dirs s in
+  Forall (fun s' => WF s' /\ leaves s' = leaves s) (s :: r_states r) /\
+  (WF (r_final r) /\ leaves (r_final r) = leaves s).
+Proof. exact whole_no_loss. Qed.
+Print Assumptions C01_whole_no_loss.
+
+Theorem C01_whole_no_override : forall o,
+  no_override o <->
+  match o_strategy o with
+  | Stop | Ignore => True
+  | Manual => Forall (fun l => parse_answer l <> AOverride) (o_answers o)
+  | Override => False
+  end.
+Proof. exact no_override_spec. Qed.
+Print Assumptions C01_whole_no_override.
+
+(* the template "x" gives every file the same name: two renames succeed, the run stops at the conflict
+   (status 1), nothing is lost *)
+Example C01_whole_example :
+  wf_b ex_tree = true /\
+  r_status (ex_main (ex_options MName true true) t_x ex_dirs ex_tree) = 1%Z /\
+  length (r_states (ex_main (ex_options MName true true) t_x ex_dirs ex_tree)) = 2%nat /\
+  node_list_eqb (leaves (r_final (ex_main (ex_options MName true true) t_x ex_dirs ex_tree))) (leaves ex_tree) = true /\
+  fs_eqb (r_final (ex_main (ex_options MName true true) t_x ex_dirs ex_tree)) ex_tree = false.
+Proof. vm_compute. repeat split; reflexivity. Qed.
